@@ -271,14 +271,11 @@ class IntervalTier(textgrid_tier.TextgridTier):
             newEntryList.append(Interval(newStart, newEnd, interval.label))
 
         # Determine new min and max timestamps
-        newMin = min([interval.start for interval in newEntryList])
-        newMax = max([interval.end for interval in newEntryList])
-
-        if newMin > self.minTimestamp:
-            newMin = self.minTimestamp
-
-        if newMax < self.maxTimestamp:
-            newMax = self.maxTimestamp
+        # (the old span is always included, so this also works if no entries remain)
+        newMin = min(
+            [self.minTimestamp] + [interval.start for interval in newEntryList]
+        )
+        newMax = max([self.maxTimestamp] + [interval.end for interval in newEntryList])
 
         return IntervalTier(self.name, newEntryList, newMin, newMax)
 
